@@ -1313,7 +1313,26 @@ impl<T: Transport + 'static> SyncEngine<T> {
 
                         // The data is up to date; its extended attributes may not be (-X)
                         if let Some(source) = &task.source {
-                            transferrer.refresh_xattrs(source, &task.dest_path).await
+                            match transferrer.refresh_xattrs(source, &task.dest_path).await {
+                                Ok(()) => Ok(()),
+                                Err(e) => {
+                                    // recorded like the failure of any other task (it reached neither
+                                    // the error list nor the --json stream)
+                                    stats.lock().unwrap().errors.push(SyncError {
+                                        path: task.dest_path.clone(),
+                                        error: e.to_string(),
+                                        action: "update".to_string(),
+                                    });
+                                    if json {
+                                        SyncEvent::Error {
+                                            path: task.dest_path.clone(),
+                                            error: e.to_string(),
+                                        }
+                                        .emit();
+                                    }
+                                    Err(e)
+                                }
+                            }
                         } else {
                             Ok(())
                         }
